@@ -130,9 +130,8 @@ raced:
 	for _, r := range rec {
 		total += len(r.events)
 	}
-	if total == 0 {
-		return nil, nil
-	}
+	// (no shared access at all is not a reason to stop: threads that draw from private state can
+	// still return equal values)
 	const pw = 8 // width of pick / pc terms
 	// initial cell values: arbitrary, far enough from the 32-bit wrap (the property's precondition)
 	cellv := make([]*Term, len(widths))
